@@ -467,6 +467,55 @@ pub fn run(ctx: &Ctx, rep: &mut Report) {
         }
         rep.add_space(&format!("from_index: all token sequences of length 0..={} over 8 tokens x 3 separator styles", maxl), &acc, t0, "result = set of the distinct card tokens");
     }
+    // from_index: every Unicode scalar value as the separator between two card tokens, as the rank character before a
+    // suit symbol, and as the suit character after a rank symbol (the set must contain exactly the card tokens)
+    {
+        let t0 = Instant::now();
+        let kind = monitor::kind_id("from_index");
+        let accs = par_parts(0x110, |p| {
+            let mut acc = Acc::new(1);
+            let mut s = String::new();
+            monitor::beat(kind, &[(p as u64) << 12]);
+            for u in (p as u32) << 12..(p as u32 + 1) << 12 {
+                if let Some(ch) = char::from_u32(u) {
+                    for form in 0..3 {
+                        s.clear();
+                        match form {
+                            0 => {
+                                s.push_str("AS");
+                                s.push(ch);
+                                s.push_str("KD");
+                            }
+                            1 => {
+                                s.push_str("2C ");
+                                s.push(ch);
+                                s.push('h');
+                            }
+                            _ => {
+                                s.push_str("2C Q");
+                                s.push(ch);
+                            }
+                        }
+                        acc.cases += 1;
+                        acc.calls += 1;
+                        let exp = tokens(&s).iter().filter_map(|t| word_to_card(parse_token(t))).fold(0u64, |m, c| m | c.bit());
+                        if exp.count_ones() == 2 {
+                            acc.nontrivial += 1;
+                        }
+                        if !matches!(guard(|| BinaryCard::from_index(&s)), Ok(b) if b == exp) {
+                            match confirm(judge, Case::text("from_index", &s, &[])) {
+                                Some(v) => acc.violate(v),
+                                None => super::unreproduced("C15 from_index scalar sweep mismatch not reproduced"),
+                            }
+                        }
+                    }
+                }
+            }
+            acc
+        });
+        let acc = Acc::merged(accs);
+        rep.add_space("from_index: every Unicode scalar value as separator, as rank character and as suit character", &acc, t0, "3 x 1,112,064 texts");
+    }
     {
         let t0 = Instant::now();
         let mut acc = Acc::new(1);
